@@ -12,6 +12,8 @@ def run(ctx):
         ctx.model_check("MC_BeaconReshare", "MC_BeaconReshare_tup.cfg", timeout=1500)        # liveness, threshold up
         r2 = ctx.model_check("MC_BeaconReshare", "MC_BeaconReshare_racelive.cfg", expect_ok=False, timeout=1500)
         ctx.notes.append("MC_BeaconReshare_racelive: %s" % (r2.violated or r2.error or "holds"))
+        r3 = ctx.model_check("MC_BeaconReshare4", "MC_BeaconReshare_restart.cfg", expect_ok=False, timeout=1500)  # n=4, t=3, two restarts in the window
+        ctx.notes.append("MC_BeaconReshare_restart (F41 on the design): %s" % (r3.violated or r3.error or "holds"))
     schemes = beaconnet.schemes_for(ctx, 1)
     for sch in schemes:
         beaconnet.run(ctx, "C07", scheme=sch)
